@@ -91,7 +91,7 @@ fn quiet(m: &mut Machine) {
 
 fn run_case(ctx: &Ctx, rng: &mut Rng, is128: bool, st: &mut St, case: u64) {
     let g = geo(is128);
-    let mut m = Machine::new(Cfg { sound: false, ..Cfg::of(is128) });
+    let mut m = Machine::new(Cfg { sound: false, init_mode: rng.below(4) as u8, ..Cfg::of(is128) });
     quiet(&mut m);
     // optionally start from a snapshot border
     let mut current: u8 = 0; // initial border colour of the machine is part of what we observe below
@@ -246,7 +246,7 @@ fn run_case(ctx: &Ctx, rng: &mut Rng, is128: bool, st: &mut St, case: u64) {
 fn history_case(ctx: &Ctx, rng: &mut Rng, is128: bool, st: &mut St, case: u64) {
     use crate::spec_snap::{load_sna, load_szx, write_sna, write_szx, Abs, SzxOpts};
     let g = geo(is128);
-    let mut m = Machine::new(Cfg { sound: false, ..Cfg::of(is128) });
+    let mut m = Machine::new(Cfg { sound: false, init_mode: rng.below(4) as u8, ..Cfg::of(is128) });
     quiet(&mut m);
     let mut current: Option<u8> = None;
     let mut last: Option<(u16, u8)> = None;
